@@ -474,11 +474,14 @@ Definition bind_inputs (env : tenv) (tbe : list texpr) (args : list arg) : bres 
   then BOk {| pq_toks := q_sql q; pq_params := q_named q; pq_outputs := q_outputs q |}
   else BErr ENotUsed)).
 
-(* markerIndex (with the F12 fix: only non-negative numbers) *)
+(* markerIndex (with the F12 fix: only non-negative numbers).  strconv.Atoi
+   reports a range error for a number above the largest int (2^63-1): such a
+   column name is not a marker. *)
+Definition max_int : N := 9223372036854775807.
 Definition marker_index (s : str) : option nat :=
   if has_prefix marker_prefix s then
     match atoi (skipn (length marker_prefix) s) with
-    | Some (false, n) => Some (N.to_nat n)
+    | Some (false, n) => if (n <=? max_int)%N then Some (N.to_nat n) else None
     | Some (true, 0%N) => Some 0        (* "-0" parses to 0 *)
     | _ => None
     end
